@@ -4,6 +4,7 @@ import (
 	"fmt"
 	stdhtml "html"
 	"html/template"
+	"reflect"
 	"strings"
 
 	"go.pennock.tech/tabular"
@@ -25,6 +26,7 @@ type c06Case struct {
 	Gen     bool          `json:"row_class_generator"`
 	GenBase gen.Q         `json:"generator_output_prefix"`
 	TName   string        `json:"template_name"`
+	CtxKind int           `json:"generator_context_kind"` // 0 pointer, 1 nil, 2 string, 3 int, 4 slice, 5 map, 6 func, 7 struct value
 	Staged  bool          `json:"staged_wrapper_reused_with_other_settings_at_first_render"`
 	StageAt int           `json:"first_render_after_row_operations"`
 	PreGen  bool          `json:"generator_set_at_first_render"`
@@ -128,6 +130,22 @@ func attrsOnly(t *model.HTMLToken, allowed ...string) (map[string]string, error)
 	return m, nil
 }
 
+// c06SameCtx compares a context handed to the generator with the one supplied (contexts need not be comparable).
+func c06SameCtx(got, want interface{}) bool {
+	if want == nil || got == nil {
+		return want == nil && got == nil
+	}
+	gv, wv := reflect.ValueOf(got), reflect.ValueOf(want)
+	if gv.Type() != wv.Type() {
+		return false
+	}
+	switch wv.Kind() {
+	case reflect.Func, reflect.Map, reflect.Slice, reflect.Ptr:
+		return gv.Pointer() == wv.Pointer()
+	}
+	return reflect.DeepEqual(got, want)
+}
+
 func c06Check(c *Ctx, cs *c06Case, sample bool) {
 	c.Case = cs
 	spec := &cs.Table
@@ -135,7 +153,26 @@ func c06Check(c *Ctx, cs *c06Case, sample bool) {
 	ht := html.Wrap(t0)
 	ht.TemplateName = cs.TName
 	var calls []c06Call
-	ctxObj := &struct{ x int }{7}
+	var ctxObj interface{} = &struct{ x int }{7}
+	switch cs.CtxKind {
+	case 1:
+		ctxObj = nil
+	case 2:
+		ctxObj = "a string as context"
+	case 3:
+		ctxObj = 42
+	case 4:
+		ctxObj = []int{1, 2, 3}
+	case 5:
+		ctxObj = map[string]int{"k": 1}
+	case 6:
+		ctxObj = func() string { return "a func as context" }
+	case 7:
+		ctxObj = struct {
+			a string
+			b []byte
+		}{"struct", []byte("x")}
+	}
 	if cs.Staged {
 		// the same wrapper renders the partial table under other settings first
 		ht.Id, ht.Class, ht.Caption = "earlier-id", "", "an earlier <caption>"
@@ -327,7 +364,7 @@ func c06Check(c *Ctx, cs *c06Case, sample bool) {
 				viol("html:generator-argument", fmt.Sprintf("call %d of the row-class generator got row number %d, expected %d (0 for the header, else the 1-based position counting separators)", ri, calls[ri].row, er.call))
 				return
 			}
-			if calls[ri].ctx != interface{}(ctxObj) {
+			if !c06SameCtx(calls[ri].ctx, ctxObj) {
 				viol("html:generator-context", fmt.Sprintf("call %d of the row-class generator got context %v, not the one supplied", ri, calls[ri].ctx))
 				return
 			}
@@ -406,6 +443,12 @@ func c06Random(c *Ctx, i int, r *gen.R) {
 	cs.GenBase = gen.Q(r.Str(c06Fam, 4))
 	if r.Chance(1, 4) {
 		cs.TName = r.Word()
+		if r.Chance(1, 3) {
+			cs.TName = r.Str(c06Fam, 3) // a template name is any string
+		}
+	}
+	if r.Chance(1, 2) {
+		cs.CtxKind = r.Intn(8)
 	}
 	if r.Chance(1, 2) {
 		cs.Staged, cs.StageAt, cs.PreGen = true, r.Range(0, len(spec.Rows)), r.Bool()
